@@ -47,7 +47,7 @@ fn check_history(run: &mut Run, deal: &Deal, hist: &[Action], states: &[Game]) -
         let g = &states[i];
         if i > 0 {
             // the chips of action i-1 come from the player whose turn it was
-            if let Turn::Choice(p) = states[i - 1].turn() {
+            if let Some(Turn::Choice(p)) = try_turn(&states[i - 1]) {
                 paid[p] += chips_of(&hist[i - 1]);
             } else if chips_of(&hist[i - 1]) != 0 {
                 run.fail("chips-moved-without-actor", &name(i), "no chips", &act_tok(&hist[i - 1]));
@@ -91,35 +91,29 @@ fn payout_oracle(paid: [i32; 2], folded: [bool; 2], rank: (u8, u8)) -> [i32; 2] 
     }
 }
 
-fn main() {
-    let a = args();
-    let mut rng = Rng::new(a.seed);
-    let mut run = Run::new(&a.out);
-    quiet_panics();
-    ambient::install();
-    let n_hist: usize = if a.thorough() { 600_000 } else { 80_000 };
-    let deals = make_deals(&mut rng, 96);
-    run.rule = format!(
-        "{n_hist} random histories of the real Game (5 play styles x legal() ∪ every raise size) over {} forced deals (crafted: seat0-wins/seat1-wins/tie, royal flush on the board / in one hand, straight flush vs straight flush, wheels, board-plays, kicker fights; + random), state compared after every action, settlements at the end of every hand; a case = one visited betting state, non-trivial always (blinds are in), distinct by (pot, seats, ticker, street)",
-        deals.len()
-    );
-    for h in 0..n_hist {
+/// one history: walk, correspondence lines, conservation + payout oracles, ambient re-asks
+fn one_history(run: &mut Run, rng: &mut Rng, deals: &[Deal], h: usize) {
         let deal = &deals[h % deals.len()];
         let style = (h / deals.len()) as u64 % 5;
-        let (hist, states) = random_history(&mut rng, deal, style);
+        let (hist, states, issues) = random_history_checked(rng, deal, style);
+        for (class, input, expected, got) in &issues {
+            run.fail(class, input, expected, got);
+        }
         run.evaluations += states.len() as u64;
         let line = states.iter().map(state_line).collect::<Vec<_>>().join(" ; ");
         run.line(&format!("game {} {} | {}", deal.h0, deal.h1, hist_tok(&hist)), &line);
-        let paid = check_history(&mut run, deal, &hist, &states);
+        let paid = check_history(run, deal, &hist, &states);
         let last = states.last().unwrap();
         let op_end = format!("game {} {} | {}", deal.h0, deal.h1, hist_tok(&hist));
-        if last.turn() != Turn::Terminal {
-            run.fail("hand-does-not-end", &op_end, "terminal within 400 actions", &turn_tok(last.turn()));
-            continue;
+        if try_turn(last) != Some(Turn::Terminal) {
+            if issues.is_empty() {
+                run.fail("hand-does-not-end", &op_end, "terminal within 400 actions", &try_turn(last).map_or("turn-panics".to_string(), turn_tok));
+            }
+            return;
         }
         // end of the hand: the engine's own strength order goes to the model (whose strength is
         // abstract); the payout oracle uses the rules evaluator on the cards actually dealt
-        let rk = ranks(last);
+        let rk = { let l = *last; catch(move || ranks(&l)).unwrap_or((0, 0)) };
         let seats = last.verif_seats();
         let folded = [seats[0].0 == State::Folding, seats[1].0 == State::Folding];
         let op = format!("rewards {} {} | {} | {} {}", deal.h0, deal.h1, hist_tok(&hist), rk.0, rk.1);
@@ -130,7 +124,7 @@ fn main() {
         // the same question under other ambient conditions: TRACE logging on, after unrelated
         // calls, from a fresh thread (with logging on). The answers must not depend on them.
         let traced = ambient::with_trace(settle);
-        let _ = (g.legal(), g.deck(), g.turn(), states[0].is_allowed(&Action::Fold));
+        let _ = (try_legal(&g), { let g2 = g; catch(move || g2.deck()).is_some() }, try_turn(&g), try_allowed(&states[0], &Action::Fold));
         let again = settle();
         run.spec_checked += 2;
         run.line(&op, &show(&traced)); // the model line is the same either way
@@ -152,7 +146,7 @@ fn main() {
             let replay = ambient::with_trace(|| catch(move || {
                 let mut g = root_with(h0, h1);
                 let mut v = vec![state_line(&g)];
-                for a in hist2 { g = g.apply(a); v.push(state_line(&g)); }
+                for a in hist2 { g = g.apply(a); v.push(state_line(&g)); } // inside catch
                 v.join(" ; ")
             }));
             run.spec_checked += 1;
@@ -171,7 +165,7 @@ fn main() {
                 run.spec_checked += 1;
                 let hole = |i: usize| bits(robopoker::cards::hand::Hand::from(seats[i].4));
                 let showdown = !folded[0] && !folded[1];
-                let rules = if showdown { rules_ranks(hole(0), hole(1), board_bits(last)) } else { (0, 0) };
+                let rules = if showdown && (hole(0) | hole(1) | board_bits(last)).count_ones() == 9 && board_bits(last) != u64::MAX { rules_ranks(hole(0), hole(1), board_bits(last)) } else { (0, 0) };
                 if showdown && rules != rk {
                     run.fail("strength-order", &op, &format!("rules order {rules:?}"), &format!("engine order {rk:?}"));
                 }
@@ -203,6 +197,27 @@ fn main() {
             let r = catch(move || g.settlements().iter().map(|s| s.reward).collect::<Vec<_>>());
             run.line(&op, &match r { None => "panic".to_string(), Some(v) => format!("{} {} ? ?", v[0], v[1]) });
             run.count("settlements-before-end");
+        }
+}
+
+fn main() {
+    let a = args();
+    let mut rng = Rng::new(a.seed);
+    let mut run = Run::new(&a.out);
+    quiet_panics();
+    ambient::install();
+    let n_hist: usize = if a.thorough() { 600_000 } else { 80_000 };
+    let deals = make_deals(&mut rng, 96);
+    run.rule = format!(
+        "{n_hist} random histories of the real Game (5 play styles x legal() ∪ every raise size) over {} forced deals (crafted: seat0-wins/seat1-wins/tie, royal flush on the board / in one hand, straight flush vs straight flush, wheels, board-plays, kicker fights; + random), state compared after every action, settlements at the end of every hand; a case = one visited betting state, non-trivial always (blinds are in), distinct by (pot, seats, ticker, street)",
+        deals.len()
+    );
+    for h in 0..n_hist {
+        // back-stop: whatever escapes the per-call `catch`es is reported, the run goes on
+        let r = std::panic::catch_unwind(std::panic::AssertUnwindSafe(|| one_history(&mut run, &mut rng, &deals, h)));
+        if r.is_err() {
+            log::set_max_level(log::LevelFilter::Off);
+            run.fail("engine-panics-outside-catch", &format!("history #{h} of seed {} (deal {} {})", a.seed, deals[h % deals.len()].h0, deals[h % deals.len()].h1), "no panic", "panic");
         }
     }
     run.exhaustive = false;
